@@ -88,6 +88,15 @@ result = [n, bad[:5]]
                 n += 1
                 if not (0 <= off <= len(img) - 2) or int.from_bytes(img[off:off + 2], "little") != v % 65536:
                     bad.append(["probe", nm, oct(v), img[off:off + 2].hex() if 0 <= off < len(img) else None])
+    # '.' in any statement: a statement inside a repeated body sees the address of ITS copy (a value cached on the syntax tree would be the first copy's)
+    dots = [("s: .repeat 3 { .ascii \"ab\"<.-s> }\n", "616200616203616206"), ("s: .repeat 4 { .byte .-s }\n", "00010203"), ("s: .repeat 3 { .word .-s }\n", "000002000400"),
+            ("s: .repeat 3 { .asciz <.-s> }\n", "000002000400"), ("s: .repeat 2 { .rad50 <.-s> }\n", "0000800c"), ("s: .repeat 3 { .blkb .-s+1 }\n", "00" * 7),
+            ("s: .repeat 2 { mov #.-s, r0 }\n", "c0150000c0150400"), ("s: .repeat 2 { .word 1, .-s }\n", "0100000001000400"), ("s: .repeat 2 { .repeat 2 { .byte .-s } }\n", "00010203"),
+            ("s: .repeat 3 { .ascii <.-s>\"a\"<.-s> }\n", "006100036103066106"), ("s: .repeat 2 { .byte '0+.-s }\n", "3031")]
+    for (p, want), rr in zip(dots, driver.native([{"kind": "asm", "sources": [p_]} for p_, _ in dots], driver.tree_root())):
+        n += 1
+        if rr["status"] != "ok" or rr.get("code_hex") != want:
+            bad.append(["dot-probe", p, rr["status"], rr.get("code_hex"), "expected " + want])
     ob = dict(label="labels-of-the-practice-corpus-and-of-probe-programs-lie-where-their-bytes-are", kind="rac", status="proved" if n and not bad else "failed", secs=0.0, path=[],
               witness=None, detail=str(bad[:5]), events=[], smt2=None, backend="cpython-native", unit="address-rac", func="Compiler (run-time check)", cases=n, cfg=dict(kind="rac"))
     return dict(unit="address-rac", func="Compiler (run-time check)", paths=n, obligations=[ob], wall=0.0)
